@@ -138,6 +138,10 @@ fn real_main() {
                         let mut cfgs = vec![wv::run::Cfg { probe: false, ..Default::default() }];
                         let x = (n * 7 + k * 3 + seed as usize) % 4;
                         cfgs.push(wv::run::Cfg { probe: false, names: x & 1 == 0, producers: x & 2 == 0, ..Default::default() });
+                        if (n + k) % 2 == 0 {
+                            // the code transform kept for custom sections: it is none of the business of which sections survive
+                            cfgs.push(wv::run::Cfg { probe: false, xform: true, ..Default::default() });
+                        }
                         for (ci, c) in cfgs.iter().enumerate() {
                             let mut h = cases::lifecycle_case(i, c, sc, &format!("{}{}", tag, ci));
                             h["procs"] = serde_json::json!(if ci == 0 { procs.get(&i.id).cloned().unwrap_or_default() } else { vec![] });
